@@ -50,7 +50,7 @@ SIZES = [1, 4096, 70000]
 def scenario(ctx, sid, seed, size, nested, with_prev, call, k, action):
     """One run with one writer action; returns an observation dict or None if the action did not fire."""
     rng = random.Random(seed)
-    w = hist.World(ctx, sid, rng, max_groups=3, max_per_group=5)
+    w = hist.World(ctx, sid, rng, max_groups=3, max_per_group=5, nitems=2)
     try:
         item = w.items[0]
         d = os.path.join(item, 'sub') if nested else item
@@ -64,7 +64,11 @@ def scenario(ctx, sid, seed, size, nested, with_prev, call, k, action):
             c = hist.content(hash(n) % 1000, 5000)
             open(p, 'wb').write(c)
             others[p] = c
-        cfg_items = [{'path': victim if not nested and False else item}]
+        # a later item holds an untouched copy of the victim's original bytes: it must come back intact whatever
+        # happens to the victim while it is read
+        copyp = os.path.join(w.items[1], 'copy-of-victim')
+        open(copyp, 'wb').write(orig)
+        others[copyp] = orig
         if with_prev:
             r0 = w.backup(advance=10)
             if r0.rc != 0:
@@ -75,7 +79,11 @@ def scenario(ctx, sid, seed, size, nested, with_prev, call, k, action):
         real = os.path.realpath(victim)
         act = action.replace('half', str(size // 2)).replace('minus1', str(max(0, size - 1)))
         trace = os.path.join(w.base, 'trace.txt')
-        r = w.backup(advance=100, shim_env={'ACTION': '%s@%s@%d=%s' % (call, real, k, act), 'TRACE': trace, 'WATCH': os.path.realpath(item)})
+        spec = '%s@%s@%d=%s' % (call, real, k, act)
+        if action == 'shrink-grow':
+            # rewritten in place while it is read: cut short just before one read, the cut-off length appended before the next
+            spec = '%s@%s@%d=truncate:%d;%s@%s@%d=append:%d' % (call, real, k, size // 3, call, real, k + 1, size - size // 3)
+        r = w.backup(advance=100, shim_env={'ACTION': spec, 'TRACE': trace, 'WATCH': os.path.realpath(item)})
         fired = os.path.exists(trace) and any('\tACTION\t' in ln for ln in open(trace, errors='replace'))
         if not fired:
             return None
@@ -120,8 +128,12 @@ def scenario(ctx, sid, seed, size, nested, with_prev, call, k, action):
                 if os.path.isfile(q) and not os.path.islink(q):
                     got = open(q, 'rb').read()
                     obs['restored_matches_record'] = (len(got) == rec[0]['size'] and hashlib.sha512(got).hexdigest() == rec[0]['hash'])
-                    possible = orig + b'Z' * 100
-                    obs['restored_is_prefix'] = possible.startswith(got)
+                    # every restored byte was on disk at its offset at some moment of the run
+                    versions = [orig + b'Z' * 100]
+                    if action == 'shrink-grow':
+                        versions.append(orig[:size // 3] + b'Z' * (size - size // 3))
+                    obs['restored_is_prefix'] = len(got) <= max(map(len, versions)) and all(
+                        any(i < len(v) and v[i] == b for v in versions) for i, b in enumerate(got))
                 else:
                     obs['restored_matches_record'] = False
         return obs
@@ -179,6 +191,9 @@ def check(ctx):
                         acts = ACTIONS if (ctx.tier == 'thorough' or k <= 3 or k % 4 == 0) else ACTIONS[:3]
                         for a in acts:
                             plans.append((sid, size, nested, with_prev, call, k, a))
+                            sid += 1
+                        if call == 'read' and size > 4096 and (ctx.tier == 'thorough' or k % 3 == 1):
+                            plans.append((sid, size, nested, with_prev, call, k, 'shrink-grow'))
                             sid += 1
     seeds = [ctx.rng.randrange(1 << 30) for _ in plans]
     with concurrent.futures.ThreadPoolExecutor(16) as ex:
